@@ -111,6 +111,11 @@ func (c *FakeChain) GetHeader(hash common.Hash, number uint64) *types.Header {
 func (c *FakeChain) GetHeaderByHash(hash common.Hash) *types.Header {
 	c.mu.Lock()
 	defer c.mu.Unlock()
+	for _, h := range c.Pinned {
+		if h.Hash() == hash {
+			return types.CopyHeader(h)
+		}
+	}
 	for _, h := range c.headers {
 		if h.Hash() == hash {
 			return h
@@ -132,5 +137,8 @@ func (c *FakeChain) GetAcReader() rawdb.AcReader { return nil }
 func (c *FakeChain) UpdateExistedHeader(header *types.Header) {
 	c.mu.Lock()
 	c.Updated = append(c.Updated, header)
+	if p, ok := c.Pinned[header.Number.Uint64()]; ok && p.Hash() == header.Hash() {
+		c.Pinned[header.Number.Uint64()] = header // (votes are not part of the hash)
+	}
 	c.mu.Unlock()
 }
